@@ -59,10 +59,16 @@ func (d dissecting) Analyze(item *api.OutputChannelItem, resolvedSource *api.Res
 }
 
 func (d dissecting) Summarize(entry *api.Entry) *api.BaseEntry {
-	summary := string(entry.Request["questions"].([]interface{})[0].(map[string]interface{})["name"].(string))
-	summaryQuery := fmt.Sprintf(`request.questions[0].name == "%s"`, summary)
+	summary := ""
+	summaryQuery := ""
+	if questions, ok := entry.Request["questions"].([]interface{}); ok && len(questions) > 0 {
+		if question, ok := questions[0].(map[string]interface{}); ok {
+			summary, _ = question["name"].(string)
+			summaryQuery = fmt.Sprintf(`request.questions[0].name == "%s"`, summary)
+		}
+	}
 	method := entry.Request["opCode"].(string)
-	methodQuery := fmt.Sprintf(`request.opCode == %s`, method)
+	methodQuery := fmt.Sprintf(`request.opCode == "%s"`, method)
 	status := 0
 	statusQuery := ""
 
